@@ -357,6 +357,47 @@ func BuildGenesis(spec GenSpec, r *rand.Rand) (*types.AppState, *World) {
 		}
 	}
 
+	// waitlist entries (for owners that also hold a stake in the same candidate) and frozen funds of all three kinds
+	if spec.Family != "c20" {
+		for k := 0; k < 4 && len(g.st.Candidates) > 0; k++ {
+			c := &g.st.Candidates[r.Intn(len(g.st.Candidates))]
+			if len(c.Stakes) == 0 {
+				continue
+			}
+			st := c.Stakes[r.Intn(len(c.Stakes))]
+			dup := false
+			for _, wl := range g.st.Waitlist {
+				if wl.CandidateID == c.ID && wl.Owner == st.Owner && wl.Coin == st.Coin {
+					dup = true
+				}
+			}
+			if dup {
+				continue
+			}
+			v := Bip(int64(10 + r.Intn(5000)))
+			g.st.Waitlist = append(g.st.Waitlist, types.Waitlist{CandidateID: c.ID, Owner: st.Owner, Coin: st.Coin, Value: v.String()})
+			g.hold(st.Coin, v)
+		}
+		for k := 0; k < 5 && len(g.st.Candidates) > 1; k++ {
+			c := g.st.Candidates[r.Intn(len(g.st.Candidates))]
+			key := c.PubKey
+			ff := types.FrozenFund{Height: h0 + uint64(3+r.Intn(60)), Address: u(r.Intn(spec.Users)).Addr, CandidateKey: &key, CandidateID: c.ID,
+				Coin: []uint64{0, 0, CoinA}[r.Intn(3)], Value: Bip(int64(1 + r.Intn(3000))).String()}
+			switch r.Intn(3) {
+			case 0: // a Lock-type fund: no candidate
+				ff.CandidateKey, ff.CandidateID = nil, 0
+				ff.Coin = []uint64{0, TokT, CoinA}[r.Intn(3)]
+			case 1: // a pending move to another candidate
+				to := g.st.Candidates[r.Intn(len(g.st.Candidates))]
+				if to.ID != c.ID {
+					ff.MoveToCandidateID = to.ID
+				}
+			}
+			g.st.FrozenFunds = append(g.st.FrozenFunds, ff)
+			g.hold(ff.Coin, BI(ff.Value))
+		}
+	}
+
 	// finish coins: volume = holdings (bancor coins need volume>0 and a reserve)
 	for _, id := range g.order {
 		c := g.coins[id]
